@@ -25,6 +25,9 @@ type Guard struct {
 	Ctx   []string // unexpected conditions dominating the guard, along the whole call chain
 	Chain []string // call chain from the entry
 	Sites []Site   // the call-site blocks along the chain, ending with the guard's own block
+	CondV ssa.Value // the SSA condition, for engines that need the operand values (affine forms)
+	Env   *Env
+	IfPos ssa.Instruction
 }
 
 // A Site is a block of a function analysed under an environment.
@@ -528,7 +531,7 @@ func (ge *GuardEngine) guardsRec(fn *ssa.Function, env *Env, chain []string, ctx
 		rt, rf := !fi.canAccept[b.Succs[0]], !fi.canAccept[b.Succs[1]]
 		ge.pv.loadCtx = []ssa.Instruction{ifi}
 		l, op, r := ge.decompose(ifi.Cond, env)
-		g := Guard{Fn: fn, Block: b, Pos: ifi.Cond.Pos(), L: l, Op: op, R: r, Chain: chain}
+		g := Guard{Fn: fn, Block: b, Pos: ifi.Cond.Pos(), L: l, Op: op, R: r, Chain: chain, CondV: ifi.Cond, Env: env, IfPos: ifi}
 		if !g.Pos.IsValid() {
 			g.Pos = ifi.Pos()
 		}
